@@ -10,6 +10,7 @@ import (
 	"net"
 	"net/mail"
 	"os"
+	"path/filepath"
 	"runtime"
 	"runtime/debug"
 	"strconv"
@@ -113,6 +114,48 @@ func init() {
 	register("max_stack", func(w *World, op Op) Obs {
 		old := debug.SetMaxStack(op.num("mb", 64) << 20)
 		return Obs{"old": old}
+	})
+	// damage_store: {"op":"damage_store","store":"user_db_1","how":"garbage"|"truncate"|"dir"|"header"}
+	// damages one store FILE of the data directory (its -wal/-shm companions are removed). To be followed by
+	// "restart" so that no manager has the store cached: the next command that needs it must open it.
+	register("damage_store", func(w *World, op Op) Obs {
+		path := filepath.Join(w.dataDir, op.str("store")+".db")
+		if _, err := os.Stat(path); err != nil {
+			return Obs{"error": "no such store file: " + err.Error()}
+		}
+		_ = os.Remove(path + "-wal")
+		_ = os.Remove(path + "-shm")
+		var err error
+		switch op.str("how") {
+		case "garbage":
+			err = os.WriteFile(path, bytes.Repeat([]byte("this is not a database\n"), 400), 0600)
+		case "truncate":
+			err = os.Truncate(path, 1000)
+		case "header":
+			// keep the size, destroy the first page
+			var f *os.File
+			if f, err = os.OpenFile(path, os.O_WRONLY, 0600); err == nil {
+				_, err = f.WriteAt(bytes.Repeat([]byte{0xAB}, 4096), 0)
+				_ = f.Close()
+			}
+		case "dir":
+			if err = os.Remove(path); err == nil {
+				err = os.Mkdir(path, 0700)
+			}
+		default:
+			return Obs{"error": "unknown how"}
+		}
+		if err != nil {
+			return Obs{"error": err.Error()}
+		}
+		return Obs{"ok": true}
+	})
+	// exit_in: {"op":"exit_in","ms":3000} — last op of a scenario whose clean-up may hang (a wedged DBManager
+	// never lets Close() in): the observations are written as usual, and if the process has not exited by itself
+	// after ms it exits then (status 0), instead of sitting in the clean-up until the wall-clock limit
+	register("exit_in", func(w *World, op Op) Obs {
+		time.AfterFunc(time.Duration(op.num("ms", 3000))*time.Millisecond, func() { os.Exit(0) })
+		return Obs{"ok": true}
 	})
 	// mailParse: what net/mail.ParseAddressList + the encoded-word encoding of the display names answer for
 	// a header value (the [mail_parse] parameter of Model/Slicers.v): null = error or empty list
